@@ -21,7 +21,7 @@ ASSUMPTIONS = ["inputs simplified, one topology-bearing root per tree", "coalesc
 
 
 def cases(tier, seed):
-    sp = tsspace.space(tier, renumber=("reverse",))
+    sp = tsspace.space(tier, renumber=("reverse", "rotate"))
     out = []
     for a in sp.args:
         out.append({"arg": a, "K": None})
